@@ -88,7 +88,9 @@ CfgsFor(n, m, f) ==
       t \in 0..(IF m = "zone" THEN NZ(n, f) ELSE n),
       mh \in MinHedge, te \in Preds, nc \in NoCancels}
 ZoneChoices(n, m) == IF m = "zone" THEN ZoneAssigns(n) ELSE {[i \in 1..n |-> 1]}
-Cfgs == UNION {UNION {UNION {CfgsFor(n, m, f) : f \in ZoneChoices(n, m)} : m \in Modes} : n \in NSet}
+\* (takes a dummy parameter so that TLC does not evaluate it eagerly at start-up: the trace
+\* specification never needs it, and with NSet = 1..6 it costs a minute)
+Cfgs(dummy) == UNION {UNION {UNION {CfgsFor(n, m, f) : f \in ZoneChoices(n, m)} : m \in Modes} : n \in NSet}
 
 -----------------------------------------------------------------------------
 (* tracker predicates, as coded *)
@@ -156,7 +158,7 @@ InitCfgP(c, p) ==
 
 InitCfg(c) == \E p \in HeldChoices(c) : InitCfgP(c, p)
 
-Init == \E c \in Cfgs : InitCfg(c)
+Init == \E c \in Cfgs(0) : InitCfg(c)
 
 -----------------------------------------------------------------------------
 (* instance goroutines *)
